@@ -116,7 +116,7 @@ def run_case(case, rng):
             prior = np.array([_open_simplex(rng, nA) for _ in range(nS)])
             prior_t = torch.tensor(prior)
         force = rng.random() < 0.5
-        iters = rng.choice([300, 2000])
+        iters = rng.choice([300, 2000, 300, 2000, 1, 2, 3])      # and budgets the iteration cannot settle within
         case.family = "raw"
         case.params = dict(nS=nS, nA=nA, gamma=gamma, weight=("per-state" if per_state else w), prior=pk,
                            force_nonzero=force, reward_shape=shape, iters=iters)
@@ -158,7 +158,7 @@ def run_case(case, rng):
             raise Inconclusive("state_list differs")
         arr = Rf.Arr(sp, states=S, actions=A)
         w = rng.choice([0.05, 0.1, 1.0, 1.0, 10.0])
-        iters = rng.choice([300, 2000])
+        iters = rng.choice([300, 2000, 300, 2000, 1, 2, 3])      # and budgets the iteration cannot settle within
         case.family = "wrapper"
         case.params = dict(n=len(S), actions=len(A), gamma=sp.gamma, weight=w, iters=iters)
         res = case.call("EntropyRegularizedPolicyIteration.plan_on",
